@@ -23,6 +23,11 @@ def main(argv: list[str] | None = None) -> int:
         print(f'ANALYSIS-ERROR property={prop} no checker for this property')
         return 2
     selftest = getattr(mod, 'selftest', None)
+    if selftest is None:
+        from .variants import VARIANTS
+        from .selftest import make_selftest
+        if prop in VARIANTS:
+            selftest = make_selftest(prop, VARIANTS[prop])
     return run_check(prop, mod.analyse, args.tier, selftest, args.replay)
 
 
